@@ -175,7 +175,9 @@ class ConcurrentExecutorFutureResults(ConcurrentExecutorListResults):
     def _put_result(self, result, idx, success):
         super()._put_result(result, idx, success)
         with self._condition:
-            if self._current == self._exec_count:
+            # nested (synchronously completed) executions and executions still in flight
+            # after a fail-fast error all come through here: complete the future once
+            if self._current == self._exec_count and not self.future.done():
                 if self._exception and self._fail_fast:
                     self.future.set_exception(self._exception)
                 else:
@@ -206,6 +208,8 @@ def execute_concurrent_async(
     try:
         executor.execute(concurrency=concurrency, fail_fast=raise_on_first_error)
     except Exception as e:
-        future.set_exception(e)
+        with executor._condition:
+            if not future.done():
+                future.set_exception(e)
 
     return future
